@@ -116,7 +116,8 @@ prop("C05", level="other",
                  "(DESIGN.md 4 C05), not a machine-checked relational proof for all sizes. The relational statement itself is checked on the compiled code for "
                  "bounded shapes (kani/gen/gen_c05.py): one stream of 12-20 arbitrary samples is fed to chunk 4 vs chunk 2, to the fixed-output vs the fixed-input "
                  "variant (including output chunks so small that calls need no input), to a sinc resampler whose chunk size is changed repeatedly in mid-stream vs a "
-                 "constant one, and to FftFixedIn / FftFixedOut (chunk smaller than, equal to, larger than the FFT block) vs FftFixedInOut; ratios are powers of two so "
+                 "constant one, and to FftFixedIn / FftFixedOut (chunk smaller than, equal to, larger than the FFT block) vs FftFixedInOut (FFT adapters: one concrete stream in the "
+                 "quick tier, symbolic in the thorough tier - 20 min per harness); ratios are powers of two so "
                  "that positions are exact, the interpolation is Nearest (pure data movement; the interpolating degrees run on one concrete stream in the thorough "
                  "tier), and the two output streams must be bit-identical on a common prefix that reaches past the start-up silence and several chunk boundaries.",
      trusted_base=FFT_TRUST + ["relational Kani runs: 12-20 input frames, ratios 1, 2, 1/2 (fft 2/3), harness-defined copying sinc interpolator / data-preserving FFT plans"],
